@@ -182,6 +182,8 @@ fn synthetic(on: bool) -> Option<SyntheticData> {
         (vec!["orders"], Identifier::from("orders_sd")),
         (vec!["items"], Identifier::from("items_sd")),
         (vec!["m"], Identifier::from("m_sd")),
+            (vec!["p"], Identifier::from("p_sd")),
+            (vec!["q"], Identifier::from("q_sd")),
             (vec!["ref"], Identifier::from("ref_sd")),
     ])))
 }
